@@ -39,10 +39,24 @@
 class MemLeakScopedMutex
 {
 public:
-    MemLeakScopedMutex() : lock(MemoryLeakWarningPlugin::getGlobalDetector()->getMutex()) { }
+    MemLeakScopedMutex() : lock(MemoryLeakWarningPlugin::getGlobalDetector()->getMutex()) { locked_ = true; }
+    ~MemLeakScopedMutex() { locked_ = false; }
+
+    /* A failure reported while the lock is held leaves the wrapper by longjmp, which skips the destructor.
+     * The reporter therefore releases the lock before it terminates the test. */
+    static void unlockBeforeLeavingByLongJmp()
+    {
+        if (locked_) {
+            locked_ = false;
+            MemoryLeakWarningPlugin::getGlobalDetector()->getMutex()->Unlock();
+        }
+    }
 private:
+    static bool locked_;
     ScopedMutexLock lock;
 };
+
+bool MemLeakScopedMutex::locked_ = false;
 
 static void* threadsafe_mem_leak_malloc(size_t size, const char* file, size_t line)
 {
@@ -545,6 +559,9 @@ public:
     virtual void fail(char* fail_string) CPPUTEST_OVERRIDE
     {
         UtestShell* currentTest = UtestShell::getCurrent();
+#if CPPUTEST_USE_MEM_LEAK_DETECTION
+        MemLeakScopedMutex::unlockBeforeLeavingByLongJmp();
+#endif
         currentTest->failWith(FailFailure(currentTest, currentTest->getName().asCharString(), currentTest->getLineNumber(), fail_string), UtestShell::getCurrentTestTerminatorWithoutExceptions());
     } // LCOV_EXCL_LINE
 };
